@@ -6,6 +6,6 @@ CONSTANTS
   GenHist = FALSE
 INIT TInit
 NEXT TNext
-INVARIANTS ServesOnlyAuthentic ServesOnlyInSync RejectKeeps ProofOnlyIfServed ServedAccounting NoLockLeak CuBound NoLateProof
+INVARIANTS ServesOnlyAuthentic AsksRequestEpoch ServesOnlyInSync RejectKeeps ProofOnlyIfServed ServedAccounting NoLockLeak CuBound NoLateProof
 POSTCONDITION Post_
 CHECK_DEADLOCK FALSE
